@@ -1,16 +1,16 @@
 #!/bin/bash
 # run_seed_wt.sh <seed-dir> <prop> [tier]: applies the seeded patch in a scratch worktree of /repo
 # (under $TMPDIR), runs the check against that tree without writing evidence, removes the worktree.
-D="$(cd "$1" && pwd)"; P="$2"; T="${3:-quick}"
+D="$(cd "$1" && pwd)"; P="$2"; T="${3:-quick}"; shift; shift; [ $# -gt 0 ] && shift   # remaining args are passed to the check
 WT=$(mktemp -d /tmp/seedwt-XXXXXX); rmdir $WT
 git -C /repo worktree add -q --detach $WT HEAD || exit 2
 trap 'git -C /repo worktree remove --force '$WT' 2>/dev/null; rm -rf '$WT'; git -C /repo worktree prune' EXIT
 git -C $WT apply "$D/patch.diff" || { echo "apply failed"; exit 2; }
 cd /verif
 if [ "$P" = C20 ]; then
-  timeout 3000 ./check $P $T --repo $WT --no-evidence > /tmp/seedrun-$P-$$.log 2>&1; RC=$?
+  timeout 3000 ./check $P $T --repo $WT --no-evidence "$@" > /tmp/seedrun-$P-$$.log 2>&1; RC=$?
 else
-  timeout 3000 ./check $P $T -repo $WT -evidence=false > /tmp/seedrun-$P-$$.log 2>&1; RC=$?
+  timeout 3000 ./check $P $T -repo $WT -evidence=false -crosscheck off "$@" > /tmp/seedrun-$P-$$.log 2>&1; RC=$?
 fi
 grep -E "^(VIOLATION|KNOWN|RESULT|  INCOMPLETE)" /tmp/seedrun-$P-$$.log | cut -c1-220 | head -12
 rm -f /tmp/seedrun-$P-$$.log
